@@ -185,4 +185,4 @@ FIX_COMMITS = ['da35a0f fix: Y gate', 'e208434 fix: Ry', '1d0097a fix: Controlle
 def claimed():
     return sorted(PROPS)
 
-CONTRACT_MODULES = ['core', 'rewriting', 'lemmas']
+CONTRACT_MODULES = ['core', 'rewriting', 'lemmas', 'eqhash']
